@@ -1,2 +1,7 @@
 import GlueVerif.Props.C17
 open GlueVerif.C17
+#print axioms inv_init
+#print axioms inv_spec
+#print axioms find_spec
+#print axioms step_inv_partial
+#print axioms inv_reachable_partial
